@@ -29,8 +29,10 @@ theorem finding_cog4_energy_negative (p : Cog4.P) (r t : ℝ) (hγ0 : 0 < p.gamm
     (hρ : 0 < p.rho0) (hu : p.u0 ≠ 0) (hΓ : 0 < p.Gamma) (hr : 0 < r) :
     Cog4.specific_internal_energy p r t < 0 := by
   obtain ⟨h1, h2, h3⟩ := cog4_admissible_partial p r t hγ0 hγ hρ hu hΓ hr
+  have hg1 : p.gamma - 1 < 0 := by linarith
   have he : Cog4.specific_internal_energy p r t = Cog4.pressure p r t / Cog4.density p r t / (p.gamma - 1) := by
-    simp only [epv_tree, epv_leaf]
+    clear h2 h3
+    epv_hydro_via_atoms (Cog4.pressure p r t) (Cog4.density p r t)
   rw [he]
   exact div_neg_of_pos_of_neg (div_pos h3 h1) (by linarith)
 
@@ -62,8 +64,10 @@ theorem finding_cog12_energy_negative (p : Cog12.P) (r t : ℝ) (hγ0 : 0 < p.ga
     (hρ : 0 < p.rho0) (hu : p.u0 ≠ 0) (hΓ : 0 < p.Gamma) (hr : 0 < r) :
     Cog12.specific_internal_energy p r t < 0 := by
   obtain ⟨h1, h2, h3⟩ := cog12_admissible_partial p r t hγ0 hγ hρ hu hΓ hr
+  have hg1 : p.gamma - 1 < 0 := by linarith
   have he : Cog12.specific_internal_energy p r t = Cog12.pressure p r t / Cog12.density p r t / (p.gamma - 1) := by
-    simp only [epv_tree]; split_ifs <;> simp only [epv_leaf]
+    clear h2 h3
+    epv_hydro_via_atoms (Cog12.pressure p r t) (Cog12.density p r t)
   rw [he]
   exact div_neg_of_pos_of_neg (div_pos h3 h1) (by linarith)
 
@@ -92,13 +96,16 @@ theorem finding_cog3_energy_negative (p : Cog3.P) (r t : ℝ) (hρ : 0 < p.rho0)
     (hgeo : 0 < p.geometry) (hT : 0 < Cog3.temperature p r t) : Cog3.specific_internal_energy p r t < 0 := by
   have hd := cog3_density_pos p r t hρ hr
   have hk : 0 < (p.geometry - 1) + 1 := by linarith
+  have hX : ((p.geometry - 1) - 1) / ((p.geometry - 1) + 1) - 1 < 0 := by
+    rw [sub_neg, div_lt_one hk]; linarith
+  have hp : Cog3.pressure p r t = p.Gamma * Cog3.density p r t * Cog3.temperature p r t := by
+    simp only [epv_tree, epv_leaf] <;> ring
   have he : Cog3.specific_internal_energy p r t
-      = p.Gamma * Cog3.density p r t * Cog3.temperature p r t / Cog3.density p r t
-        / (((p.geometry - 1) - 1) / ((p.geometry - 1) + 1) - 1) := by
-    simp only [epv_tree, epv_leaf]
-  rw [he]
-  apply div_neg_of_pos_of_neg (by positivity)
-  rw [sub_neg, div_lt_one hk]; linarith
+      = Cog3.pressure p r t / Cog3.density p r t / (((p.geometry - 1) - 1) / ((p.geometry - 1) + 1) - 1) := by
+    clear hp hT
+    epv_hydro_via_atoms (Cog3.pressure p r t) (Cog3.density p r t)
+  rw [he, hp]
+  exact div_neg_of_pos_of_neg (by positivity) hX
 
 /-! ### non-vacuity -/
 
